@@ -18,6 +18,13 @@ theorem inv_init (b : Bank) (ps : List Asset) (prev : Option Nat) (h t : Nat) :
     Inv { bank := b, params := ps, prevTime := prev, height := h, time := t } :=
   inv_fresh rfl rfl rfl
 
+/-- every state reachable from an initial state by any history (module account never a sender)
+satisfies the joint invariant — the hypothesis `Inv s` of the theorems below is no restriction -/
+theorem inv_reachable (b : Bank) (ps : List Asset) (prev : Option Nat) (h t : Nat) (ops : List Op)
+    (hops : ∀ op ∈ ops, OpOk op) :
+    Inv (run { bank := b, params := ps, prevTime := prev, height := h, time := t } ops) :=
+  inv_run ops (inv_init b ps prev h t) hops
+
 /-- one operation preserves the joint invariant -/
 theorem inv_step_all (s : State) (op : Op) (hs : Inv s) (hop : OpOk op) : Inv (apply s op) :=
   inv_apply hs hop
